@@ -85,6 +85,17 @@ func VerifH_C19_byte() {
 			verifAssert(ok && n == int64(want[k]), "byte-values")
 		}
 	}
+	// two-argument form: j defaults to i
+	res, err = vhCallFn(t, bytef, 3, false, rt.StringValue(s), rt.IntValue(i))
+	want1 := specSub(s, i, i)
+	if i == 0 || (i < 0 && -i > int64(len(s))) {
+		want1 = "" // position before the string: nothing (not clamped to 1)
+	}
+	verifAssert(err == nil && len(res) == len(want1), "byte2-count")
+	if err == nil && len(res) == 1 && len(want1) == 1 {
+		n, ok := res[0].TryInt()
+		verifAssert(ok && n == int64(want1[0]), "byte2-value")
+	}
 	// default: i = 1, j = i
 	res, err = vhCallFn(t, bytef, 3, false, rt.StringValue(s))
 	if len(s) == 0 {
